@@ -2020,9 +2020,11 @@ const SHAPE_STACK_MB: usize = 256;
 // ---------------------------------------------------------------------------------------------
 // C16 (b): long adversarial histories through the REAL priority generator
 
-#[derive(Default)]
+#[derive(Default, Clone)]
 struct Sz {
     size: u32,
+    /// which element of its history this is (0 in the histories that judge shape only)
+    id: u32,
 }
 impl TreapItem for Sz {
     fn update(&mut self, l: Option<&Self>, r: Option<&Self>) {
@@ -2190,6 +2192,11 @@ enum Hist {
     /// w, w+threads, … of the sequence, one per request) and put into one treap by the collecting thread
     /// with merge at the back / at the front / in the middle (split_at + two merges); n = nodes per worker
     RoundRobin { threads: usize, mode: &'static str, names: Names },
+    /// self-similar histories (only when the checked tree offers a copy operation, see `library_copy`): a
+    /// treap of `seed` appended elements, then n rounds of `how`: "double" t = merge(copy(t), t), "double_front"
+    /// t = merge(t, copy(t)), "triple" t = merge(merge(copy(t), t), copy(t)), "copy_split_merge" (a, b) =
+    /// copy(t).split_at(size/2), t = merge(merge(a, t), b); n = number of rounds; probed after every round
+    SelfSimilar { seed: usize, how: &'static str },
 }
 
 const BASIC: &[&str] = &["append", "push_front", "insert_middle", "rotate", "append_remove_alternate", "two_treaps_then_merge", "from_item_merge", "insert_one_third"];
@@ -2226,6 +2233,18 @@ fn chunk_limits(quick: bool) -> (usize, usize, usize) {
 /// T times the number of running minima of the stream (over the bound from T = 8 on).
 const RR_THREADS: &[usize] = &[2, 4, 8, 16, 32];
 const RR_MODES: &[&str] = &["back", "front", "middle"];
+/// Self-similar histories: a copy that keeps the priorities of its original makes one treap hold the same
+/// priority many times; merge lets the right root win a tie, so r copies of a node form a path of r nodes.
+const SELF_SEEDS: &[usize] = &[1, 2, 3, 100, 500];
+const SELF_HOWS: &[&str] = &["double", "double_front", "triple", "copy_split_merge"];
+/// rounds: the treap grows by the factor 2 (3) per round, up to 500 * 2^10 = 512000 elements
+fn self_rounds(how: &str) -> usize {
+    if how == "triple" {
+        6
+    } else {
+        10
+    }
+}
 
 /// The whole menu (of the thorough tier; the quick tier leaves out the largest chunk histories, see
 /// `in_tier`), simplest first inside every family.
@@ -2291,6 +2310,9 @@ fn menu() -> Vec<Hist> {
             }
         }
     }
+    for &how in SELF_HOWS {
+        v.extend(SELF_SEEDS.iter().map(|&seed| Hist::SelfSimilar { seed, how }));
+    }
     v
 }
 
@@ -2330,6 +2352,7 @@ impl Hist {
                 format!("chunks/T={threads}/c={c}/{}/{o}{l}{}", fill_name(fill), names.label())
             }
             Hist::RoundRobin { threads, mode, names } => format!("roundrobin/T={threads}/{mode}{}", names.label()),
+            Hist::SelfSimilar { seed, how } => format!("self_similar/{how}/seed={seed}"),
         }
     }
 
@@ -2346,6 +2369,7 @@ impl Hist {
             Hist::Ordinals { .. } => "thread_ordinals",
             Hist::Chunks { .. } => "chunks",
             Hist::RoundRobin { .. } => "roundrobin",
+            Hist::SelfSimilar { .. } => "self_similar",
         }
     }
 
@@ -2356,6 +2380,8 @@ impl Hist {
                 let (max_threads, max_elements, max_parked) = chunk_limits(quick);
                 threads <= max_threads && threads * c <= max_elements && (life != Life::Parked || threads <= max_parked)
             }
+            // an optional operation: the family exists only in a tree that offers a copy
+            Hist::SelfSimilar { .. } => copy_api().is_some(),
             _ => true,
         }
     }
@@ -2372,6 +2398,8 @@ impl Hist {
             Hist::Chunks { threads, c, .. } => threads * c,
             // every node costs two thread switches
             Hist::RoundRobin { threads, .. } => total / 8 / threads,
+            // the number of rounds is part of the history, the same in both tiers
+            Hist::SelfSimilar { how, .. } => self_rounds(how),
             // at least 256 elements per treap: a chain is far over the bound (60.0) there
             Hist::Strided { k, .. } => (total / k).max(256),
             Hist::Window { w, .. } => (total / 2 / w).max(256),
@@ -2387,6 +2415,8 @@ impl Hist {
             Hist::Strided { .. } => &[0, 17, 1000],
             // every thread of these histories is a fresh one
             Hist::Ordinals { .. } | Hist::Chunks { .. } | Hist::RoundRobin { .. } => &[0],
+            // copies create no node (or the same number whatever the offset): the start of the stream and far from it
+            Hist::SelfSimilar { .. } => &[0, 1000],
             _ => &[0, 1, 2, 3, 17, 1000],
         }
     }
@@ -2414,6 +2444,7 @@ impl Hist {
             Hist::Ordinals { .. } => n * 4 * ORDINAL_ELEMS,
             Hist::Chunks { threads, .. } => 2 * n + threads * 1000,
             Hist::RoundRobin { threads, .. } => 100 * n * threads,
+            Hist::SelfSimilar { seed, how } => 4 * seed * (if how == "triple" { 3usize } else { 2 }).pow(n as u32),
         }
     }
 }
@@ -2577,7 +2608,73 @@ fn build_chunk(fill: Fill, c: usize, offset: usize) -> Treap<Sz> {
 }
 
 fn item() -> Sz {
-    Sz { size: 1 }
+    Sz { size: 1, id: 0 }
+}
+
+/// OPTIONAL operation "duplicate a treap through whatever copying API the checked tree offers".  The crate
+/// under test may or may not implement `Clone` for `Treap<T>` / for its boxed nodes, so the engine cannot
+/// name `.clone()` unconditionally; which of the two `dup` methods below applies is decided by method
+/// resolution at compile time (the by-value candidate `Dup<X>: ViaClone` exists only when `X: Clone`,
+/// otherwise the auto-referenced candidate `&Dup<X>: NoCopy` is taken).  The harness never copies nodes by
+/// hand here: a copy made by the harness would not be a treap the library produced.
+// (unused in a tree without a copy operation)
+#[allow(dead_code)]
+struct Dup<'a, X>(&'a X);
+#[allow(dead_code)]
+trait ViaClone<X> {
+    fn dup(&self) -> Option<X>;
+}
+impl<'a, X: Clone> ViaClone<X> for Dup<'a, X> {
+    fn dup(&self) -> Option<X> {
+        Some(self.0.clone())
+    }
+}
+#[allow(dead_code)]
+trait NoCopy<X> {
+    fn dup(&self) -> Option<X>;
+}
+impl<'a, 'b, X> NoCopy<X> for &'b Dup<'a, X> {
+    fn dup(&self) -> Option<X> {
+        None
+    }
+}
+
+/// A copy of `t` made by the library: `Clone` of the treap, else `Clone` of its boxed root node; None when
+/// the checked tree offers neither.
+fn library_copy(t: &Treap<Sz>) -> Option<Treap<Sz>> {
+    if let Some(c) = (&Dup(t)).dup() {
+        return Some(c);
+    }
+    (&Dup(&t.root)).dup().map(treap_of)
+}
+
+/// which copying API `library_copy` uses in this tree
+fn copy_api() -> Option<&'static str> {
+    let t: Treap<Sz> = Treap::new();
+    if (&Dup(&t)).dup().is_some() {
+        Some("Treap: Clone")
+    } else if (&Dup(&t.root)).dup().is_some() {
+        Some("Option<Box<TreapNode>>: Clone")
+    } else {
+        None
+    }
+}
+
+/// the ids of the elements in sequence order (own walk over the public fields)
+fn ids_in_order(t: &Treap<Sz>) -> Vec<u32> {
+    let mut out = vec![];
+    let mut stack: Vec<&TreapNode<Sz>> = vec![];
+    let mut cur = t.root.as_deref();
+    while cur.is_some() || !stack.is_empty() {
+        while let Some(n) = cur {
+            stack.push(n);
+            cur = n.left.as_deref();
+        }
+        let n = stack.pop().unwrap();
+        out.push(n.item.id);
+        cur = n.right.as_deref();
+    }
+    out
 }
 
 /// Runs one history with size parameter `n` after `offset` prior node creations (stream offset), probing
@@ -2958,6 +3055,52 @@ fn menu_history(hist: Hist, n: usize, offset: usize) -> Result<MenuOk, MenuFail>
                 }
             }
             expect_size = n * threads;
+        }
+        Hist::SelfSimilar { seed, how } => {
+            let label = p.label.clone();
+            let unavailable = || MenuFail { msg: format!("history {label}: no copy operation in this tree"), n: None, machinery: true };
+            let mut model: Vec<u32> = (0..seed as u32).collect();
+            for (i, &id) in model.iter().enumerate() {
+                t.insert_at(i, Sz { size: 1, id });
+            }
+            p.now(&t, steps, None)?;
+            for round in 1..=n {
+                // a failure at this round replays with `round` rounds
+                let at = |msg: String| MenuFail { msg, n: Some(round), machinery: false };
+                let c = library_copy(&t).ok_or_else(unavailable)?;
+                if ids_in_order(&c) != model || c.size() != model.len() {
+                    return Err(at(format!("history {} (offset {offset}): round {round}: the copy of a treap of {} elements does not hold the sequence of its original", p.label, model.len())));
+                }
+                let orig = model.clone();
+                match how {
+                    "double" => {
+                        t = Treap::merge(c, t);
+                        model.extend_from_slice(&orig);
+                    }
+                    "double_front" => {
+                        t = Treap::merge(t, c);
+                        model.extend_from_slice(&orig);
+                    }
+                    "triple" => {
+                        let c2 = library_copy(&t).ok_or_else(unavailable)?;
+                        t = Treap::merge(Treap::merge(c, t), c2);
+                        model.extend_from_slice(&orig);
+                        model.extend_from_slice(&orig);
+                    }
+                    _ => {
+                        let half = orig.len() / 2;
+                        let (a, b) = c.split_at(half);
+                        t = Treap::merge(Treap::merge(a, t), b);
+                        model = [&orig[..half], &orig[..], &orig[half..]].concat();
+                    }
+                }
+                steps += 1;
+                p.now(&t, steps, None).map_err(at)?;
+                if t.size() != model.len() || ids_in_order(&t) != model {
+                    return Err(at(format!("history {} (offset {offset}): round {round}: the sequence of {} elements is not the one the copies and merges describe (size() = {})", p.label, model.len(), t.size())));
+                }
+            }
+            expect_size = model.len();
         }
     }
     p.now(&t, steps, None)?;
@@ -3595,6 +3738,20 @@ fn main() {
         run.cov("directed_height_probes", probes);
         run.cov("directed_max_height", maxh as u64);
         run.cov("directed_height_bound", bound(n));
+        run.cov(
+            "self_similar_histories",
+            match copy_api() {
+                Some(api) => format!("run: copies made through {api}"),
+                None => "skipped: no copy operation in this tree".to_string(),
+            },
+        );
+        run.cov(
+            "self_similar_histories_note",
+            format!(
+                "OPTIONAL family (k), part of the menu only when the checked tree lets a caller duplicate a treap (Clone on Treap, else Clone on its boxed root node; detected at compile time, the harness never copies nodes by hand): a treap of s in {SELF_SEEDS:?} appended elements with ids 0..s, then rounds of one of {SELF_HOWS:?} — t = merge(copy(t), t); t = merge(t, copy(t)); t = merge(merge(copy(t), t), copy(t)); (a, b) = copy(t).split_at(size/2), t = merge(merge(a, t), b) — 10 rounds (tripling: 6), at stream offsets {:?}. After EVERY round: height against 5*log2(n+1)+20, heap order, size() and the in-order id sequence against the sequence the copies and merges describe; every copy is compared with its original's sequence before it is used. A copy that keeps its original's priorities puts equal priorities into one treap, which no history of insertions alone does.",
+                Hist::SelfSimilar { seed: 1, how: "double" }.offsets()
+            ),
+        );
         let total = Hist::Queue { len: 64, front: false }.size(quick);
         run.cov(
             "directed_histories_note",
